@@ -4,6 +4,8 @@
 //
 //	c12 -mode hs  -n N -seed S [-grid] [-shard i/k] -out f   bare mse.Stream endpoints on an in-memory duplex pipe
 //	c12 -mode pol -scen scenarios.json -seed S -out f         btconn.Dial / Accept against scripted peers over loopback TCP
+//	c12 -mode iso -sched schedules.ndjson -seed S -out f      2-3 simultaneous incoming handshakes with distinct initial payloads (iso.go)
+//	c12 -mode ses -sched scenarios.ndjson -seed S -out f      real torrent.Session dialing a raw scripted listener under every encryption setting (ses.go)
 //	c12 -mode probe                                           the stale-cipher probe (prints a line, exit 0)
 package main
 
@@ -970,6 +972,7 @@ func main() {
 	reps := flag.Int("reps", 1, "pol: repetitions of the matrix (different pads)")
 	outp := flag.String("out", "", "output ndjson")
 	oneCase := flag.String("case", "", "one: JSON of a single handshake case")
+	sched := flag.String("sched", "", "iso / ses: ndjson file with the schedules / session scenarios generated by TLC")
 	hto := flag.Int("hangms", 20000, "hs: a handshake that takes longer than this is recorded as hanging")
 	flag.Parse()
 	hsTimeout = time.Duration(*hto) * time.Millisecond
@@ -1001,6 +1004,14 @@ func main() {
 		modeHS(*n, *seed, *grid, si, sk, w)
 	case "pol":
 		modePol(*scen, *seed, *reps, w)
+	case "iso":
+		modeIso(*sched, *seed, *reps, w)
+	case "ses":
+		if err := modeSes(*sched, *seed, w); err != nil {
+			w.Flush()
+			fmt.Fprintln(os.Stderr, "ses:", err)
+			os.Exit(3)
+		}
 	default:
 		fmt.Fprintln(os.Stderr, "bad -mode")
 		os.Exit(2)
